@@ -26,11 +26,6 @@ pub struct Case {
     pub slot_ops: Vec<Vec<SlotOp>>,
 }
 
-/// development switch while the slot-operation stage is being validated (never set by registered commands)
-fn slot_ops_enabled() -> bool {
-    std::env::var("GEV_SLOT_OPS").is_ok()
-}
-
 pub struct C06 {
     pub cfg: gen::wxml::WxmlCfg,
     pub max_steps: usize,
@@ -43,7 +38,7 @@ impl PropCheck for C06 {
         let general = (gen::wxml::group(&self.cfg), gen::data::data_env(2), proptest::collection::vec(gen::history::step(), 1..=self.max_steps), any::<u64>(), gen::history::slot_ops(self.max_steps))
             .prop_map(|(group, d0, steps, style, slot_ops)| {
                 // only where a dynamic-slot component can exist
-                let slot_ops = if slot_ops_enabled() && crate::compile::print_group(&group, style).iter().any(|(_, s)| s.contains("dyn-c")) { slot_ops } else { vec![] };
+                let slot_ops = if crate::compile::print_group(&group, style).iter().any(|(_, s)| s.contains("dyn-c")) { slot_ops } else { vec![] };
                 Case { group, d0, steps, style, slot_ops }
             })
             .boxed();
@@ -150,7 +145,7 @@ fn scenario(max_steps: usize) -> BoxedStrategy<Case> {
             let group = Group { files: vec![Tmpl { path: "p".into(), named, body: crate::model::wxml::normalise_nodes(body), ..Default::default() }], scripts: vec![] };
             let mut items: Vec<(String, JsVal)> = vec![("list".into(), list), ("c".into(), JsVal::Arr(c)), ("a".into(), a), ("b".into(), b)];
             gen::data::finish_env(&mut items, vec![], JsVal::Null);
-            Case { group, d0: JsVal::Obj(items), steps, style, slot_ops: if shape >= 10 && slot_ops_enabled() { slot_ops } else { vec![] } }
+            Case { group, d0: JsVal::Obj(items), steps, style, slot_ops: if shape >= 10 { slot_ops } else { vec![] } }
         })
         .boxed()
 }
@@ -256,8 +251,8 @@ pub fn run(tier: Tier, seed: u64, findings: &Findings) -> i32 {
         Finish {
             cfg,
             report,
-            rule: "cases = (generated multi-file group, D0, 1-4 update steps); each step = 1-3 interpreted edits (replace, delete, array push/pop/insert/remove/swap/reverse, keyed insert, list kind flip, object key reorder) and an update-path tree built from the actual diff in one of the styles exact / coarsened / extra marks / true (asserted to cover the diff). Oracle: after every step dump(updated instance) deep-equals dump(fresh creation with the same data), real generated code + real ProcGenWrapper + real RangeListManager on the stub DOM on both sides. non-trivial = at least one step with a non-empty diff that was compared; distinct by (source, data sequence). compared_units = nodes compared after updates.".into(),
-            assumptions: vec!["stub DOM child operations mirror element.ts".into(), "update-path trees are plain null-prototype objects as built by tmpl/index.ts (splice-shaped trees are not generated)".into()],
+            rule: "cases = (generated multi-file group, D0, 1-4 update steps); each step = 1-3 interpreted edits (replace, delete, array push/pop/insert/remove/swap/reverse, keyed insert, list kind flip, object key reorder) and an update-path tree built from the actual diff in one of the styles exact / coarsened / extra marks / splice-shaped prototype array / true (asserted to cover the diff); for templates with a dynamic-slot component a step also carries 0-3 slot operations (set a slot value, insert / remove / rename a slot, remove two slots in one call; before or after the owner's update) performed on every live component through the shadow-root protocol (replaceSlotValue, applySlotValueUpdates, applySlotUpdates, insert / remove handlers), the fresh side starting from the resulting slot list. Oracle: after every step dump(updated instance) deep-equals dump(fresh creation with the same data), real generated code + real ProcGenWrapper + real RangeListManager on the stub DOM on both sides. non-trivial = at least one step with a non-empty diff that was compared; distinct by (source, data sequence). compared_units = nodes compared after updates.".into(),
+            assumptions: vec!["stub DOM child operations mirror element.ts".into(), "update-path trees are null-prototype objects / prototype arrays as built by tmpl/index.ts; splice-shaped trees mark shifted indexes and length too, except in scenarios whose arrays are read through wx:for alone".into(), "js/stub_dom.mjs DynShadowRoot mirrors the dynamic-slot protocol of shadow_root.ts; the light-DOM order of a dynamic-slot host is compared per slot instance".into()],
             started,
             exhaustive: false,
         },
